@@ -149,6 +149,11 @@ def lookupTbl (tbl : List (String × Option String)) (k : String) : Option (Opti
   | [] => none
   | (k', v) :: rest => if k' = k then some v else lookupTbl rest k
 
+/-- What cutting a raw `--- a/<path>` line at the first TAB and at spaces leaves of the path
+(for the model's marker-line source; `get_filename_from_marker_line`). -/
+def markerName (n : Option (List Char)) : Option (List Char) :=
+  n.map fun p => ('a' :: '/' :: p).takeWhile fun c => c != ' ' && c != '\t'
+
 def hunkEvents (h : String) : Option (List Lifetime.Event) :=
   h.toList.foldlM (fun acc c =>
     match c with
@@ -245,8 +250,9 @@ def step (line : String) : String :=
           let byExt (k : List Char) : Option String := (lookupTbl tbl (String.ofList k)).getD none
           let lang : Option (List Char) → String := getSyntax byExt fb
           let evs : List Lifetime.Event :=
-            (secs.flatMap fun sc => [.fileMinus sc.1, .filePlus sc.2.1] ++ sc.2.2) ++ [.flush]
-          let r := Lifetime.run lang (Lifetime.initial lang) evs
+            (secs.flatMap fun sc =>
+              [.fileMinus sc.1 (markerName sc.1), .filePlus sc.2.1 (markerName sc.2.1)] ++ sc.2.2) ++ [.flush]
+          let r := Lifetime.run lang (Lifetime.initial lang false) evs
           r.2.foldl (fun acc q =>
             acc ++ " " ++ (match q.kind with | .fragment => "F" | .line => "L") ++ ":" ++
               (match q.used with
